@@ -709,6 +709,13 @@ class Rectangle(Shape):
         bool
             True if `point` is inside the rectangle, False otherwise.
         """
+        if self.rotation:
+            # The lower and upper coordinates describe the rectangle before
+            # the rotation (around its center) is applied. Bring the point
+            # to that same frame by undoing the rotation.
+            point = self.pos + Shape.calc_rotated_pos(point - self.pos,
+                                                      -self.rotation)
+
         min_x = min(self._lower_coord.real, self._upper_coord.real)
         max_x = max(self._lower_coord.real, self._upper_coord.real)
         min_y = min(self._lower_coord.imag, self._upper_coord.imag)
